@@ -1,40 +1,64 @@
 #!/usr/bin/env python3
-"""Runs every seeded change under /verif/seeded against the checks of the property it breaks (and any extra
-properties given in meta), one at a time: git -C /repo apply, ./check, git -C /repo checkout -- .
+"""Runs every seeded change under /verif/seeded against the checks of the property it breaks (and any extra properties
+given in meta 'checks'), one at a time.
+
+  tools/run_seeded.py [--scratch DIR] [id-prefix ...]
+
+Without --scratch the change is applied to /repo itself (git -C /repo apply <patch>; ./check; git -C /repo checkout -- .).
+With --scratch DIR a detached worktree of /repo's HEAD is created at DIR (outside /repo and /verif), the checks run
+against it through VERIF_REPO, their evidence/replays go to DIR.out, and both are removed at the end.
 Writes the outcome into seeded/<id>/meta.json."""
-import json, os, subprocess, sys, re
+import json, os, subprocess, sys, shutil
 V = os.path.dirname(os.path.dirname(os.path.abspath(__file__)))
-only = sys.argv[1:]
-for d in sorted(os.listdir(os.path.join(V, 'seeded'))):
-    if only and not any(d.startswith(o) for o in only):
-        continue
-    sd = os.path.join(V, 'seeded', d)
-    patch = os.path.join(sd, 'patch.diff')
-    if not os.path.exists(patch):
-        continue
-    mp = os.path.join(sd, 'meta.json')
-    meta = json.load(open(mp)) if os.path.exists(mp) else {}
-    pid = d.split('-')[0]
-    meta.setdefault('id', d)
-    meta.setdefault('breaks_property', pid)
-    props = meta.get('checks', [pid])
-    if subprocess.call(['git', '-C', '/repo', 'apply', '--check', patch]) != 0:
-        meta['result'] = 'patch does not apply to the current tree'
+args = sys.argv[1:]
+repo = '/repo'
+env = dict(os.environ)
+scratch = None
+if args and args[0] == '--scratch':
+    scratch = args[1]
+    args = args[2:]
+    subprocess.check_call(['git', '-C', '/repo', 'worktree', 'add', '-q', '--detach', scratch, 'HEAD'])
+    repo = scratch
+    env['VERIF_REPO'] = scratch
+    env['VERIF_OUT'] = scratch + '.out'
+only = args
+try:
+    for d in sorted(os.listdir(os.path.join(V, 'seeded'))):
+        if only and not any(d.startswith(o) for o in only):
+            continue
+        sd = os.path.join(V, 'seeded', d)
+        patch = os.path.join(sd, 'patch.diff')
+        if not os.path.exists(patch):
+            continue
+        mp = os.path.join(sd, 'meta.json')
+        meta = json.load(open(mp)) if os.path.exists(mp) else {}
+        pid = d.split('-')[0]
+        meta.setdefault('id', d)
+        meta.setdefault('breaks_property', pid)
+        props = meta.get('checks', [pid])
+        if subprocess.call(['git', '-C', repo, 'apply', '--check', patch]) != 0:
+            meta['result'] = 'patch does not apply to the current tree'
+            json.dump(meta, open(mp, 'w'), indent=1)
+            print(d, 'NOAPPLY', flush=True)
+            continue
+        subprocess.check_call(['git', '-C', repo, 'apply', patch])
+        try:
+            res = {}
+            for p in props:
+                r = subprocess.run([os.path.join(V, 'check'), p], capture_output=True, text=True, cwd=V, env=env)
+                viol = [l for l in r.stdout.splitlines() if l.startswith('VIOLATION')]
+                und = [l for l in r.stdout.splitlines() if l.startswith('UNDECIDED')]
+                res[p] = {'exit': r.returncode, 'violations': len(viol),
+                          'first': (viol[0][:300] if viol else (und[0][:300] if und else '')),
+                          'reproduced_natively': any('no-failing-input-found' not in l for l in viol)}
+            meta['detection'] = res
+            meta['detected'] = any(v['exit'] == 1 for v in res.values())
+            meta.pop('result', None)
+        finally:
+            subprocess.check_call(['git', '-C', repo, 'checkout', '--', '.'])
         json.dump(meta, open(mp, 'w'), indent=1)
-        print(d, 'NOAPPLY')
-        continue
-    subprocess.check_call(['git', '-C', '/repo', 'apply', patch])
-    try:
-        res = {}
-        for p in props:
-            r = subprocess.run([os.path.join(V, 'check'), p], capture_output=True, text=True, cwd=V)
-            viol = [l for l in r.stdout.splitlines() if l.startswith('VIOLATION')]
-            res[p] = {'exit': r.returncode, 'violations': len(viol),
-                      'first': (viol[0][:300] if viol else ''),
-                      'reproduced_natively': any('no-failing-input-found' not in l for l in viol)}
-        meta['detection'] = res
-        meta['detected'] = any(v['exit'] == 1 for v in res.values())
-    finally:
-        subprocess.check_call(['git', '-C', '/repo', 'checkout', '--', '.'])
-    json.dump(meta, open(mp, 'w'), indent=1)
-    print(d, 'DETECTED' if meta['detected'] else 'missed', {k: v['exit'] for k, v in res.items()})
+        print(d, 'DETECTED' if meta['detected'] else 'missed', {k: v['exit'] for k, v in res.items()}, flush=True)
+finally:
+    if scratch:
+        subprocess.call(['git', '-C', '/repo', 'worktree', 'remove', '--force', scratch])
+        shutil.rmtree(scratch + '.out', ignore_errors=True)
